@@ -2,12 +2,49 @@
    Model: Net.v = N nodes, each Node.v = Client.v x Server.v glued as /repo/src/lib.rs does, a healthy blockstore
    per node, and ATOMIC delivery of wantlists / block batches between connected nodes (the abstraction that C14's
    handler-level theorems justify).  `settle` is the deterministic fair round, `refresh` = 30 s + settle.
-   INTERIM CONTENT: the composition scenarios below are machine-checked by evaluation of the model (vm_compute);
-   the general theorems (C02_direct, C02_multi_hop, C14_records_agree over every reachable net) are being proved in
-   Net_proofs*.v and are added here as they are completed.  Until then C02 is claimed as PARTIAL: the scenarios
-   are proved, the general statement is exercised end to end by the `net` engine on the implementation. *)
-From BS Require Import Bytes Cid Prefix Proto Types Node Net Net_proofs.
+   General theorems (Net_proofs2..12, restated in Net_props): for EVERY net reachable by any list of application /
+   environment / scheduling steps (any number of nodes, connections, queries; blocks put by the application hash
+   to their CID, CIDs asked for are well-formed):
+     C02_direct    — a live query of node i for c, i connected to j, j's store holds c: answered within one fair round
+                     (`settle`) plus one refresh, provided the rounds ran to quiescence (checked on the result: the
+                     fuel of `settle` sufficed) and i's wantlist is within the server's cap of 1024;
+     C02_multi_hop — chain i - j - k, only k holds c, j queries c too: i is answered within settle + two refreshes.
+   PARTIAL: fairness is built into `settle` (every node is polled, every store call completed, every message
+   delivered, again and again); whether the real code registers a waker for every condition that needs a poll is
+   outside the model; the delivery abstraction is assumption A-SWARM/A-STREAM + C14. *)
+From BS Require Import Net Net_proofs Net_proofs2 Net_proofs5 Net_proofs7 Net_proofs9 Net_proofs10 Net_proofs11 Net_proofs12 Net_props.
 Open Scope N_scope.
+
+Theorem C02_direct (Sz : N) (Hh : hash_fn) (HSz : 32 <= Sz) (i j : N) (q : qid) (c : cid) n ops :
+  Forall (nop_good Sz Hh) ops -> Forall (nop_wf Sz) ops ->
+  let s := fst (nrun Sz Hh (net_init n) ops) in
+  live_query i q c s -> Net.connected s i j = true ->
+  (exists st d, store_of s j = Some st /\ store_get st c = SHit d) ->
+  let r1 := settle Sz Hh s in
+  let r2 := refresh Sz Hh (fst r1) in
+  quietb (fst r1) = true -> quietb (fst r2) = true -> (length (wl_i i (fst r1)) <= 1024)%nat ->
+  answered i q (snd r1 ++ snd r2).
+Proof. exact (Net_props.C02_direct Sz Hh HSz i j q c n ops). Qed.
+
+Theorem C02_multi_hop (Sz : N) (Hh : hash_fn) (HSz : 32 <= Sz) (i j k : N) (qi qj : qid) (c : cid) n ops :
+  Forall (nop_good Sz Hh) ops -> Forall (nop_wf Sz) ops ->
+  let s := fst (nrun Sz Hh (net_init n) ops) in
+  live_query i qi c s -> live_query j qj c s ->
+  Net.connected s i j = true -> Net.connected s j k = true ->
+  (exists st d, store_of s k = Some st /\ store_get st c = SHit d) ->
+  let r1 := settle Sz Hh s in
+  let r2 := refresh Sz Hh (fst r1) in
+  let r3 := refresh Sz Hh (fst r2) in
+  quietb (fst r1) = true -> quietb (fst r2) = true -> quietb (fst r3) = true ->
+  (length (wl_i j (fst r1)) <= 1024)%nat -> (length (wl_i i (fst r2)) <= 1024)%nat ->
+  answered i qi (snd r1 ++ snd r2 ++ snd r3).
+Proof. exact (Net_props.C02_multi_hop Sz Hh HSz i j k qi qj c n ops). Qed.
+
+Theorem C02_reachable_ok (Sz : N) (Hh : hash_fn) (HSz : 32 <= Sz) n ops :
+  Forall (nop_good Sz Hh) ops -> Forall (nop_wf Sz) ops ->
+  net_ok Sz Hh (fst (nrun Sz Hh (net_init n) ops)) /\ net_wf Sz (fst (nrun Sz Hh (net_init n) ops)).
+Proof. exact (Net_props.C02_reachable_ok Sz Hh HSz n ops). Qed.
+
 
 (* two nodes, B holds c, A asks: answered after one settle *)
 Theorem C02_scenario_direct : obs ex_direct = ([EResponse 0 0 d1], true).
@@ -31,6 +68,9 @@ Proof. exact ex_cancel_events. Qed.
 Theorem C02_scenario_no_relay_without_own_query : obs ex_chain_no_relay = ([], true).
 Proof. exact ex_chain_no_relay_events. Qed.
 
+Print Assumptions C02_direct.
+Print Assumptions C02_multi_hop.
+Print Assumptions C02_reachable_ok.
 Print Assumptions C02_scenario_direct.
 Print Assumptions C02_scenario_get_before_connect.
 Print Assumptions C02_scenario_concurrent.
@@ -38,3 +78,6 @@ Print Assumptions C02_scenario_refetch_after_eviction.
 Print Assumptions C02_scenario_late_local_put.
 Print Assumptions C02_scenario_cancel_one_of_two.
 Print Assumptions C02_scenario_no_relay_without_own_query.
+
+Example C02_direct_is_not_vacuous := Net_props.C02_direct_nonvacuous.
+Example C02_multi_hop_is_not_vacuous := Net_props.C02_multi_hop_nonvacuous.
